@@ -52,6 +52,11 @@ class SchedRun:
         class Front:
             def put(self, pkt):
                 holder["s"].put(pkt)
+                if "twin" in holder:
+                    # a second, independent scheduler of the same kind in the same program gets a copy of everything:
+                    # the instance under observation must behave exactly as if it were alone
+                    import copy
+                    holder["twin"].put(copy.copy(pkt))
         front = Front()
         nmax = cfg["N"]
         if cfg.get("order", 0) == 0:
@@ -63,6 +68,10 @@ class SchedRun:
         holder["s"] = s
         self.sched = s
         s.out = net.sink()
+        if cfg.get("twin"):
+            t2 = build(env, cfg)
+            t2.out = type("Null", (), {"put": staticmethod(lambda p: None)})()
+            holder["twin"] = t2
         self.mon = None
         self.mon_period = None
         if cfg.get("mon"):
